@@ -727,6 +727,78 @@ def run_composed():
     return viol
 
 
+def run_two_handlers():
+    """two connections in one process, each with its own exported objects:
+    a call is dispatched among the objects exported on the connection it
+    arrived on, and nowhere else"""
+    from txdbus import objects as O, interface as I
+    viol = []
+    a, b = fakes.ClientWorld(), fakes.ClientWorld()
+    try:
+        for w in (a, b):
+            w.sent()
+        iface = I.DBusInterface('org.ex.Two', I.Method('Who', '', 's'),
+                                noRegister=True)
+        ran = []
+
+        class Obj(O.DBusObject):
+            dbusInterfaces = [iface]
+
+            def __init__(self, path, tag):
+                O.DBusObject.__init__(self, path)
+                self.tag = tag
+
+            def dbus_Who(self):
+                ran.append(self.tag)
+                return self.tag
+        a.conn.exportObject(Obj('/only_a', 'a1'))
+        a.conn.exportObject(Obj('/shared', 'a2'))
+        b.conn.exportObject(Obj('/shared', 'b2'))
+        b.conn.exportObject(Obj('/only_b', 'b3'))
+        b.conn.unexportObject('/only_b')
+        a.conn.exportObject(Obj('/only_b', 'a3'))
+        for w in (a, b):
+            w.sent()
+        serial = 900
+        table = [(a, '/only_a', 'a1'), (b, '/only_a', None),
+                 (a, '/shared', 'a2'), (b, '/shared', 'b2'),
+                 (a, '/only_b', 'a3'), (b, '/only_b', None),
+                 (b, '/org/freedesktop/DBus', None)]
+        for w, path, want in table:
+            serial += 1
+            del ran[:]
+            w.conn.dataReceived(R.encode_message(
+                R.METHOD_CALL, serial,
+                {'path': path, 'member': 'Who', 'interface': 'org.ex.Two',
+                 'sender': CALLER, 'destination': ':1.7'}))
+            mine = [m for m in w.sent()
+                    if m['fields'].get('reply_serial') == serial]
+            other = (b if w is a else a).sent()
+            ok = len(mine) == 1 and not other and (
+                (want is not None and mine[0]['type'] == 2 and
+                 mine[0]['body'] == [want] and ran == [want]) or
+                (want is None and mine[0]['type'] == 3 and
+                 mine[0]['fields'].get('error_name') ==
+                 'org.freedesktop.DBus.Error.UnknownObject' and not ran))
+            if not ok:
+                viol.append(('two-connections/%s' % ('dispatched-elsewhere'
+                                                    if want is None else
+                                                    'wrong-object'),
+                             'connection %s received a call to %s: ran %r, '
+                             'answered %r (the other connection wrote %d '
+                             'messages); expected %s'
+                             % ('A' if w is a else 'B', path, ran,
+                                [_b(m) for m in mine], len(other),
+                                want or 'UnknownObject')))
+    except Exception as e:
+        viol.append(('two-connections/raises-%s' % type(e).__name__,
+                     'two connections with their own exports: %r' % (e,)))
+    finally:
+        b.close()
+        a.close()
+    return viol
+
+
 def _task_composed(_):
     res = core.Result()
     found = run_composed()
@@ -736,10 +808,17 @@ def _task_composed(_):
     res.count('nontrivial', 8)
     for t, w in found:
         res.violation('%s/%s' % (PROP, t), w, {'part': 'composed'}, size=1)
+    res.count('states', 7)
+    res.count('transitions', 7)
+    res.count('evaluations', 7)
+    for t, w in run_two_handlers():
+        res.violation('%s/%s' % (PROP, t), w, {'part': 'two'}, size=1)
     return res
 
 
 def replay(data):
+    if data['part'] == 'two':
+        return [('%s/%s' % (PROP, t), w) for t, w in run_two_handlers()]
     if data['part'] == 'composed':
         found = run_composed()
         return [('%s/%s' % (PROP, t), w) for t, w in found]
